@@ -752,6 +752,11 @@ func (r *Runner) builtin(ctx context.Context, pos syntax.Pos, name string, args 
 			}
 			// Use -1 as max to get all fields without joining the last ones.
 			values := expand.ReadFields(r.ecfg, string(line), -1, raw)
+			if values == nil {
+				// An empty array, rather than a nil list which "${arr[@]}"
+				// would expand to one empty field.
+				values = []string{}
+			}
 			r.setVar(arrayName, expand.Variable{
 				Set:  true,
 				Kind: expand.Indexed,
